@@ -7,7 +7,7 @@ CLAIMS = {
  "C01": ("refusal gate bound to the FileDesc's own OTI/object (MPT+WMC); per-scheme capacity constants fit the wire field; partition call agreement and RFC 5052 closed forms; Z written >= 1; metadata flow object -> FDT File -> writer metadata; decoding parameters only from packet / FDT; BlockWriter byte accounting, MD5 switch order, no feeding of the inflater after the content length; receive-once decision table; receiver block addressing; close-object flag never premature",
          "E2 structural rules over MIR (must-pass-through, who-may-call, slices, arm constants vs RFC widths), polynomial normal forms, E3 decision tables, E4 ranges",
          "byte-exact round trip, FEC/inflate/XML library behaviour and exactly-one-copy are NOT decided"),
- "C02": ("close-object flag accounts for every interleaved block, counts source symbols only (esi < k) and compares with the transfer length; symbol consumed before the flag acts; duplicates neither overwrite nor count; decode thresholds over all orderings; attach_fdt records the instance id before it opens the writer, replays the cached packets and flushes decoded blocks; the transfer counter behind the B flag counts completed transfers only",
+ "C02": ("close-object flag accounts for every interleaved block, counts source symbols only (esi < k) and compares with the transfer length; symbol consumed before the flag acts; duplicates neither overwrite nor count; decode thresholds over all orderings; attach_fdt records the instance id before it opens the writer, replays the cached packets in reception order and flushes decoded blocks; the transfer counter behind the B flag counts completed transfers only",
          "E2 dependence/dominance rules + E3 decision tables over comparison orderings",
          "delivery for every loss pattern (liveness, MDS property of the RS library) is NOT decided"),
  "C03": ("MD5 gate before complete(); strict SBN order; first copy wins; at most one terminal writer call over all entry orders (typestate); stale packets ignored; decoding parameters only from packet / FDT; BlockWriter byte accounting (trim to bytes_left, content-length limit, MD5 finalised on completion, MD5 switch decided before the BlockWriter is built)",
@@ -46,22 +46,22 @@ CLAIMS = {
  "C14": ("never-early gates of should_transfer_now over all orderings; reference time per carousel mode; last-transfer timestamps written only at transfer start/end, explicit reset only when not transferring; pacing gate dominates encoder.read and tick pairing; tick value; non-zero divisor for empty objects",
          "E3 decision tables + E2 must-pass-through/pairing/argument rules",
          "pacing accuracy ('first poll at or after due time') is NOT decided"),
- "C15": ("each width arm within its width; cursor never 0 at exits; uniqueness mechanism (loop exit only on a free cursor, cursor written only inside the loop); ownership witnesses (compile_fail / compile-pass); TOI provenance to wire and FDT; O/H flags and TOI byte count in the LCT header",
+ "C15": ("each width arm within its width and the masking is the last operation applied to every value stored in the cursor; cursor never 0 at exits; uniqueness mechanism (loop exit only on a free cursor, cursor written only inside the loop); ownership witnesses (compile_fail / compile-pass); TOI provenance to wire and FDT; O/H flags and TOI byte count in the LCT header; nb_bytes_128 width classes (no set bit of the TOI dropped)",
          "E4 ranges per arm and at exits + E2 + E5 (LCT first word) + E6 compile-fail witnesses built against the tree",
          "uniqueness over concrete histories only through the mechanism"),
- "C16": ("state Completed implies complete() delivered or ObjectAlreadyReceived (typestate over all entry orders); replay pairings incl. flush of blocks decoded before the FDT and attach ordering; registry insert only under Completed; in-band Z / B from the same partition roles; every transfer start republishes in being-transferred mode; the instance offered to waiting objects is the one just completed; decoding parameters not frozen before the FDT",
+ "C16": ("state Completed implies complete() delivered or ObjectAlreadyReceived (typestate over all entry orders); replay pairings incl. flush of blocks decoded before the FDT, attach ordering and replay of the packet cache in reception order; registry insert only under Completed; in-band Z / B from the same partition roles; every transfer start republishes in being-transferred mode; the instance offered to waiting objects is the one just completed; decoding parameters not frozen before the FDT; Expires of every instance based on the now of its own publication",
          "E3 typestate + E2 pairing/dominance",
          "delivery within two cycles for every join offset (liveness) is NOT decided"),
  "C17": ("inventory of growth calls on receiver registries each with a bound; cache counter grows by at least the cached datagram and is reset only where the cache was emptied; block allocation limit accounts in bytes in both arms; timeout clock refreshed only by packets of the object; cleanup decision table over FDT states and timeouts; cleanup covers every registry",
          "E2 who-may-call over growth methods + dominance/pairing + predicate inspection",
          "live heap bytes are NOT decided"),
- "C18": ("routing key provenance and derived Hash/Eq; filter gate before dispatch; open only on creation, every removal paired with close for the removed keys and close only for a session that existed, single evaluation of clock-reading predicates; sibling refcount shapes; the four filter calls hand their own (endpoint, tsi) to the matching TSIFilter method and the filter's add/remove bookkeeping is symmetric; listener ids come from a counter that only grows",
+ "C18": ("routing key provenance and derived Hash/Eq; filter gate before dispatch; open only on creation, every removal paired with close for the removed keys and close only for a session that existed, single evaluation of clock-reading predicates; sibling refcount shapes; the four filter calls hand their own (endpoint, tsi) to the matching TSIFilter method on every path and the filter's add/remove bookkeeping is symmetric; listener ids come from a counter that only grows",
          "E2 argument/type rules, must-pass-through under assumption, pairing, E3 decision table of is_valid",
          "isolation as behaviour and refcount arithmetic over sequences are NOT decided"),
  "C19": ("is_expired over all orderings; Expired only under enable_expired_check from Complete; both attach_fdt sites behind update_expired_state + Complete; skew sign consistency; Expires taken from the instance's own attribute as NTP seconds (upper half), None when unparsable; the sender clock the skew is computed from is read from EXT_TIME at its RFC 5651 bit positions, every valid flag combination accepted",
          "E3 decision table + E2 dominance/must-pass-through/argument rules + E5 bit provenance of EXT_TIME",
          "outcomes over all clock offsets (time arithmetic) are NOT decided"),
- "C20": ("stream block buffer filled by a loop on the object's own stream (no per-block buffering adaptor), Interrupted retried; every transfer rewinds and builds a fresh encoder; sibling block readers agree; stream length measured with position restored; the close-object flag is decided from byte counts, not from the reader's state",
+ "C20": ("stream block buffer filled by a loop on the object's own stream (no per-block buffering adaptor), Interrupted retried; every transfer rewinds and builds a fresh encoder; sibling block readers agree; stream length is the position seek(End(0)) reported, measured with the position restored; the close-object flag is decided from byte counts, not from the reader's state",
          "E2 loop rule, must-pass-through, sibling dominance/argument rules, dependence rule on the close flag",
          "equality of packet sequences for all chunkings is NOT decided"),
 }
